@@ -240,23 +240,33 @@ func init() {
 	registerSeq(seqCheck{
 		id: "C01", quick: 100 * time.Second, thor: 15 * time.Minute, depthQ: 3, depthT: 4,
 		alphabet: append(coreAlphabet(), retriedOps()...), restart: false,
-		sigs: []string{"conserve:", "read:", "ref:"},
+		sigs:    []string{"conserve:", "read:", "ref:"},
+		configs: withTwin([][]lx.LedgerSpec{{{Name: "l1"}}}),
 		check: func(ctx context.Context, s *lx.StepInfo, rep *lx.Report) {
 			lx.CheckConservation(ctx, s.W, s.Ctrl, s.Ref, rep)
+			twinLeg(ctx, s, rep, func(c ledgercontroller.Controller, sub *lx.Report) {
+				lx.CheckConservation(ctx, s.W, c, s.Ref, sub)
+			})
 		},
 		need: []string{"post:ok", "revert:ok", "script:ok", "post:insufficient_funds"},
-		rule: "every sequence of length<=depth over the 16-op write alphabet (postings incl. src==dst, multi-posting, 2^64+1, back/future dated; Numscript send-all and allotment; reverts forced/at effective date; metadata; dry run; failing writes); after each sequence, per asset, total input == total output in the volumes listing, aggregated balances are 0, at the current time and at every recorded instant +-1us in both date modes, and in the raw accounts_volumes and moves tables",
+		rule: "every sequence of length<=depth over the 16-op write alphabet (postings incl. src==dst, multi-posting, 2^64+1, back/future dated; Numscript send-all and allotment; reverts forced/at effective date; metadata; dry run; failing writes); after each sequence, per asset, total input == total output in the volumes listing, aggregated balances are 0, at the current time and at every recorded instant +-1us in both date modes, and in the raw accounts_volumes and moves tables; the same on a twin ledger into which the export of the history is imported",
 	})
 	registerSeq(seqCheck{
 		id: "C03", quick: 100 * time.Second, thor: 15 * time.Minute, depthQ: 3, depthT: 4,
 		alphabet: coreAlphabet(), restart: true,
-		sigs: []string{"tx:pcv", "tx:get-pcv", "tx:precommit", "tx:json", "moves:", "log:pcv", "log:unknown-tx", "read:", "ref:"},
+		sigs:    []string{"tx:pcv", "tx:get-pcv", "tx:precommit", "tx:json", "moves:", "log:pcv", "log:unknown-tx", "read:", "ref:"},
+		configs: withTwin([][]lx.LedgerSpec{{{Name: "l1"}}}),
 		check: func(ctx context.Context, s *lx.StepInfo, rep *lx.Report) {
 			lx.CheckCurrent(ctx, s.Ctrl, s.Ref, rep)
 			lx.CheckPCVDetails(ctx, s.W, s.Ctrl, s.Ref, rep)
+			// the post-commit volumes of an imported transaction are recomputed by the import
+			twinLeg(ctx, s, rep, func(c ledgercontroller.Controller, sub *lx.Report) {
+				lx.CheckCurrent(ctx, c, s.Ref, sub)
+				lx.CheckPCVDetails(ctx, s.W, c, s.Ref, sub)
+			})
 		},
 		need: []string{"post:ok", "revert:ok", "script:ok"},
-		rule: "every sequence of length<=depth over the write alphabet (incl. transactions touching one account several times and source==destination); after each sequence, for EVERY transaction of the history (so earlier ones are re-checked after every later write: immutability): postCommitVolumes from ListTransactions and GetTransaction == reference volumes right after that transaction, JSON preCommitVolumes == volumes right before it, each row of moves in seq order == running fold in posting order, NEW_TRANSACTION/REVERTED_TRANSACTION log payloads carry the same values",
+		rule: "every sequence of length<=depth over the write alphabet (incl. transactions touching one account several times and source==destination); after each sequence, for EVERY transaction of the history (so earlier ones are re-checked after every later write: immutability): postCommitVolumes from ListTransactions and GetTransaction == reference volumes right after that transaction, JSON preCommitVolumes == volumes right before it, each row of moves in seq order == running fold in posting order, NEW_TRANSACTION/REVERTED_TRANSACTION log payloads carry the same values; the same on a twin ledger into which the export of the history is imported",
 	})
 	registerSeq(seqCheck{
 		id: "C04", quick: 100 * time.Second, thor: 15 * time.Minute, depthQ: 3, depthT: 5,
